@@ -10,8 +10,21 @@ pub struct PanicRec {
     pub message: String,
 }
 
+/// Message of a panic the harness raises on purpose, as a fault: user code that the library
+/// calls (a connection's response future) panics while the library holds its own state.
+pub const INJECTED_PANIC: &str = "sim: injected panic in user code below the pool";
+
 impl PanicRec {
+    pub fn is_injected(&self) -> bool {
+        self.message.contains(INJECTED_PANIC)
+    }
     pub fn in_harness(&self) -> bool {
+        // A future of the harness that is polled again after it completed was polled by the
+        // library (the harness polls each of its own futures to completion exactly once): the
+        // message comes from the compiler-generated state machine, the fault is the caller's.
+        if self.message.contains("resumed after completion") || self.message.contains("polled after completion") {
+            return false;
+        }
         self.file.contains("/verif/sim/") || self.file.starts_with("src/") && !self.file.contains("/repo/")
             && std::path::Path::new("/verif/sim").join(&self.file).exists()
     }
